@@ -58,13 +58,17 @@ def config_classes(ctx):
 
 
 def run(ctx: Context, col) -> None:
-    _targets(ctx, col)
+    from .common import Parts
+
+    part = Parts()
+    part(_targets, ctx, col)
     for cls in ctx.solvers():
-        _fields(ctx, cls, col)
-        _complete(ctx, cls, col)
-    _protocol(ctx, col)
-    _overrides(ctx, col)
-    _problem_config(ctx, col)
+        part(_fields, ctx, cls, col)
+        part(_complete, ctx, cls, col)
+    part(_protocol, ctx, col)
+    part(_overrides, ctx, col)
+    part(_problem_config, ctx, col)
+    part.finish()
     col.floor("R10.1", 9)
     col.floor("R10.2", 10)
     col.floor("R10.3", 10)
